@@ -108,47 +108,51 @@ def correspond(chk, area, exe, ops, case_start=("init", "case"), harness_args=()
             stats[p[1]] += 1
             problems.append((case, p))
         idx += n
-    # concrete failures of the implementation first; bare correspondence differences only when the
-    # run (which is the search) found no failing input
-    concrete = [x for x in problems if x[1][1] != "diff"]
-    pool = concrete or [x for x in problems if x[1][1] == "diff"]
-    # round-robin over (pre-shrink) signatures, smallest cases first, so that a flood of one kind of failure
-    # (e.g. a known finding) cannot hide another kind
-    groups = {}
-    for x in sorted(pool, key=lambda x: len(x[0])):
-        case, (i, kind, detail) = x
-        try:
-            k = str(sorted((sig_of(kind, detail, case[:i + 1]) if sig_of else {"kind": kind}).items()))
-        except Exception:
-            k = kind
-        groups.setdefault(k, []).append(x)
-    todo = []
-    depth = 0
-    while len(todo) < max_reports * 4 and any(len(g) > depth for g in groups.values()):
-        for g in groups.values():
-            if len(g) > depth:
-                todo.append(g[depth])
-        depth += 1
-    reported = 0
-    sigs = set()
-    for case, (i, kind, detail) in todo:
-        if reported >= max_reports:
-            break
-        small = shrink_case(area, exe, case[:i + 1] if kind != "diff" else case[:i + 1], kind, case_start,
-                            harness_args, oracle=oracle, model=model, env=env, impl_view=impl_view, skip_model=skip_model)
-        si, sm, ss, _ = evaluate(area, exe, small, case_start, harness_args, oracle, model, env)
-        sp = first_problem(small, si, sm, ss, impl_view, skip_model) or (len(small) - 1, kind, detail)
-        sig = sig_of(sp[1], sp[2], small) if sig_of else {"kind": sp[1]}
-        sk = str(sorted(sig.items()))
-        if sk in sigs:
-            continue
-        sigs.add(sk)
-        what = {"fault": "implementation memory/UB fault", "spec": "implementation violates the spec oracle",
-                "diff": "model/implementation correspondence differs"}[sp[1]] + f" [{area}]: {sp[2][:400]}"
-        lines = list(small) + ["# impl:  " + x for x in si] + \
-                (["# model: " + x for x in sm] if sm else []) + (["# spec:  " + x for x in ss] if ss else [])
-        if chk.violation(what, lines, nofail=(sp[1] == "diff"), signature=sig):
-            reported += 1
+    # concrete failures of the implementation first; bare correspondence differences only when the run (which is
+    # the search) reported no *new* failing input (known findings do not count: they must not hide a diff)
+    def report(pool):
+        # round-robin over (pre-shrink) signatures, smallest cases first, so that a flood of one kind of failure
+        # (e.g. a known finding) cannot hide another kind
+        groups = {}
+        for x in sorted(pool, key=lambda x: len(x[0])):
+            case, (i, kind, detail) = x
+            try:
+                k = str(sorted((sig_of(kind, detail, case[:i + 1]) if sig_of else {"kind": kind}).items()))
+            except Exception:
+                k = kind
+            groups.setdefault(k, []).append(x)
+        todo = []
+        depth = 0
+        while len(todo) < max_reports * 4 and any(len(g) > depth for g in groups.values()):
+            for g in groups.values():
+                if len(g) > depth:
+                    todo.append(g[depth])
+            depth += 1
+        reported = 0
+        sigs = set()
+        for case, (i, kind, detail) in todo:
+            if reported >= max_reports:
+                break
+            small = shrink_case(area, exe, case[:i + 1], kind, case_start, harness_args, oracle=oracle, model=model,
+                                env=env, impl_view=impl_view, skip_model=skip_model)
+            si, sm, ss, _ = evaluate(area, exe, small, case_start, harness_args, oracle, model, env)
+            sp = first_problem(small, si, sm, ss, impl_view, skip_model) or (len(small) - 1, kind, detail)
+            sig = sig_of(sp[1], sp[2], small) if sig_of else {"kind": sp[1]}
+            sk = str(sorted(sig.items()))
+            if sk in sigs:
+                continue
+            sigs.add(sk)
+            what = {"fault": "implementation memory/UB fault", "spec": "implementation violates the spec oracle",
+                    "diff": "model/implementation correspondence differs"}[sp[1]] + f" [{area}]: {sp[2][:400]}"
+            lines = list(small) + ["# impl:  " + x for x in si] + \
+                    (["# model: " + x for x in sm] if sm else []) + (["# spec:  " + x for x in ss] if ss else [])
+            if chk.violation(what, lines, nofail=(sp[1] == "diff"), signature=sig):
+                reported += 1
+        return reported
+
+    new_reports = report([x for x in problems if x[1][1] != "diff"])
+    if new_reports == 0:
+        report([x for x in problems if x[1][1] == "diff"])
     if len(chk.cov["samples"]) < 6 and ops:
         chk.cov["samples"].append({"op": ops[min(3, len(ops) - 1)][:200], "impl": impl[min(3, len(impl) - 1)][:200]})
     chk.cov["traces_validated_against_impl"] = chk.cov.get("traces_validated_against_impl", 0) + len(cases)
